@@ -3,6 +3,7 @@ package checks
 import (
 	"bytes"
 	"fmt"
+	"net"
 	"runtime"
 	"sort"
 	"sync"
@@ -70,6 +71,7 @@ func TestC14Xid(t *testing.T) {
 		}
 		stopParsers := make(chan struct{})
 		var pwg sync.WaitGroup
+		frames := c14ParseFrames()
 		for pi := 0; pi < parsers; pi++ {
 			pwg.Add(1)
 			go func(pi int) {
@@ -80,7 +82,7 @@ func TestC14Xid(t *testing.T) {
 						return
 					default:
 					}
-					of.Parse(c14ParseFrames[(i+pi)%len(c14ParseFrames)])
+					of.Parse(frames[(i+pi)%len(frames)])
 					if i%8 == 0 {
 						runtime.Gosched()
 					}
@@ -207,16 +209,21 @@ var c14Uniq atomic.Uint64
 
 // frames of the kinds whose receivers Parse allocates through constructors (flow-mod, features request/reply,
 // set-config, flow-removed) plus a few others
-var c14ParseFrames = func() [][]byte {
-	var out [][]byte
-	for _, k := range []string{"flow_mod", "set_config", "features_request", "hello", "barrier_request"} {
-		out = append(out, c07SeedCtl(k).Example(3))
-	}
-	for _, k := range []string{"features_reply", "flow_removed", "packet_in", "port_status", "get_config_reply"} {
-		out = append(out, c07SeedSw(k).Example(3))
-	}
-	return out
-}()
+// (built on first use, not at package initialisation: TestC14Cold needs a process in which no library code has run)
+var c14ParseFramesOnce sync.Once
+var c14ParseFramesV [][]byte
+
+func c14ParseFrames() [][]byte {
+	c14ParseFramesOnce.Do(func() {
+		for _, k := range []string{"flow_mod", "set_config", "features_request", "hello", "barrier_request"} {
+			c14ParseFramesV = append(c14ParseFramesV, c07SeedCtl(k).Example(3))
+		}
+		for _, k := range []string{"features_reply", "flow_removed", "packet_in", "port_status", "get_config_reply"} {
+			c14ParseFramesV = append(c14ParseFramesV, c07SeedSw(k).Example(3))
+		}
+	})
+	return c14ParseFramesV
+}
 
 var c14Build = rapid.Custom(func(rt *rapid.T) builtMsg { return buildMessage(rt, nil) })
 var c14Switch = rapid.Custom(func(rt *rapid.T) gen.SwitchMsg {
@@ -321,8 +328,74 @@ func c14Program(kind int, seed int) (o c14out) {
 		if _, err := d.Write(append([]byte{}, m2.Wire...)); err == nil {
 			o.Dump = obs.Dump(d, obs.Opts{ExportedOnly: true, Normalise: true, SkipFields: map[string]bool{"DHCP.Options": true}})
 		}
+		// a message whose transaction id is left to the library (xid 0 = "pick one"): the id is random and is
+		// replaced before the message is compared; picking it must be safe from any goroutine
+		hw := net.HardwareAddr{2, 0, 0, byte(seed >> 16), byte(seed >> 8), byte(seed)}
+		ctor := []func(uint32, net.HardwareAddr) (*protocol.DHCP, error){protocol.NewDHCPDiscover, protocol.NewDHCPOffer, protocol.NewDHCPRequest, protocol.NewDHCPAck, protocol.NewDHCPNak}[seed%5]
+		if d0, err := ctor(0, hw); err == nil {
+			d0.Xid = uint32(seed)
+			buf := make([]byte, 600)
+			n0, _ := d0.Read(buf)
+			o.Bytes2 = buf[:n0]
+		}
 	}
 	return
+}
+
+// TestC14Cold: the first use of the library in a process, made concurrently. State
+// that is built lazily on first use (a table filled by the first caller, a cache, a
+// pool) has exactly one such moment per process, and a sequential warm-up - any
+// earlier test, the reference run of TestC14Batch - hides it. This test is the
+// only thing its process does: 16 goroutines leave a barrier and each builds,
+// encodes, parses and looks up its own programs (the generators run inside the
+// goroutines, so constructors are first called there); afterwards the same
+// programs are run one after another and must give the same bytes and values.
+// Built with -race; one cold start per shard.
+func TestC14Cold(t *testing.T) {
+	c := ev.For("C14")
+	defer c.Done()
+	c.Rule("TestC14Cold: per process (shard) one concurrent cold start - 16 goroutines x 10..40 programs of the four TestC14Batch kinds, generated and run inside the goroutines before any other library call of the process; " +
+		"oracle: -race report, crash, or any difference from the sequential re-run of the same programs.")
+	const G = 16
+	per := ev.Scale(10, 40)
+	base := envInt("VERIF_SEED", 1)*1000003 + envInt("VERIF_SHARD", 0)*7919
+	outs := make([][]c14out, G)
+	start := make(chan struct{})
+	var wg sync.WaitGroup
+	for g := 0; g < G; g++ {
+		wg.Add(1)
+		go func(g int) {
+			defer wg.Done()
+			<-start
+			for i := 0; i < per; i++ {
+				outs[g] = append(outs[g], c14Program((g+i)%4, base+g*131+i))
+			}
+		}(g)
+	}
+	close(start)
+	wg.Wait()
+	for g := 0; g < G; g++ {
+		for i := 0; i < per; i++ {
+			c.Eval()
+			kind, seed := (g+i)%4, base+g*131+i
+			ref := c14Program(kind, seed)
+			got := outs[g][i]
+			if !bytes.Equal(ref.Bytes, got.Bytes) || !bytes.Equal(ref.Bytes2, got.Bytes2) || ref.Dump != got.Dump || ref.Err != got.Err {
+				what := "bytes"
+				if bytes.Equal(ref.Bytes, got.Bytes) && bytes.Equal(ref.Bytes2, got.Bytes2) {
+					what = "value"
+				}
+				if ref.Err != got.Err {
+					what = "error"
+				}
+				c.Report(t, fmt.Sprintf("C14|cold-start|cross-talk|%s|kind%d", what, kind), fmt.Sprintf("program kind %d seed %d on goroutine %d of %d at process start: concurrent %s err=%q, sequential %s err=%q; %s",
+					kind, seed, g, G, hx(got.Bytes), got.Err, hx(ref.Bytes), ref.Err, obs.FirstDiff(ref.Dump, got.Dump)), map[string]any{"kind": kind, "seed": seed})
+				return
+			}
+			c.NonTrivial(ev.HashStr("cold", fmt.Sprint(kind, seed)))
+		}
+	}
+	c.Label("cold_start")
 }
 
 var c14DHCP = rapid.Custom(func(rt *rapid.T) gen.DHCPMsg { return gen.New(rt, 600).DHCP() })
